@@ -603,7 +603,7 @@ func c07Body(c *vk.Ctx, cs c07Case) {
 
 func TestVerifC07Agents(t *testing.T) {
 	log.SetOutput(io.Discard)
-	u := vk.Unit{Property: "C07", Name: "c07.agents", Quick: 300, Thorough: 10000,
+	u := vk.Unit{Property: "C07", Name: "c07.agents", Quick: 800, Thorough: 10000,
 		Rule: "a real MuxAgent with the real RestAgent (HTTP handlers via httptest), the real WebSocketAgent (real WebSocket connections to an httptest server), 0..2 mock agents and optionally the PingAgent; histories of 1..16 operations over {REST register / unregister / fetch, WebSocket connect / close, deliver a bundle for one of three endpoints}; a marker bundle per endpoint serves as barrier; oracle = reference mailbox model: after every fetch and at the end the multiset each WebSocket client and mock agent received and each REST client fetched equals exactly the bundles delivered to its endpoint while it was registered, and the REST agent's endpoint list equals its clients' endpoints; non-trivial = >= 2 clients on one endpoint or >= 2 endpoints on one agent type; distinct by case hash"}
 	ops := []string{"rest-reg", "rest-reg", "rest-reg", "rest-unreg", "fetch", "fetch", "deliver", "deliver", "deliver", "deliver", "ws-open", "ws-open", "ws-close"}
 	vk.Check(t, u, func(t *rapid.T) c07Case {
@@ -812,7 +812,7 @@ func (m *vfGatedMock) count(p string) int {
 
 func TestVerifC07MuxLeave(t *testing.T) {
 	log.SetOutput(io.Discard)
-	u := vk.Unit{Property: "C07", Name: "c07.mux-leave", Quick: 150, Thorough: 6000,
+	u := vk.Unit{Property: "C07", Name: "c07.mux-leave", Quick: 600, Thorough: 6000,
 		Rule: "a real MuxAgent with 3..6 mock agents registered for one endpoint; a bundle is handed over while one child (any position) accepts its message only later, and meanwhile 1..3 other children (any positions) leave by closing their sender channel, as a disconnecting WebSocket/REST client does; then the slow child accepts, and 0..2 further bundles follow. Oracle: every agent that stayed registered receives every bundle exactly once, an agent that left receives each bundle at most once, nothing panics or blocks; non-trivial = a child positioned after the slow one leaves; distinct by case hash"}
 	vk.Check(t, u, func(t *rapid.T) c07MuxCase {
 		n := rapid.IntRange(3, 6).Draw(t, "n")
